@@ -139,13 +139,23 @@ def higher_order_guards(ctx, rep, rule: str) -> None:
         raise AnalysisError(f"{rule}: expected one return in _matrix_inverse_root_higher_order")
     ret = rets[0]
     xname = ret.ast.value.elts[0].id if isinstance(ret.ast.value, ast.Tuple) and isinstance(ret.ast.value.elts[0], ast.Name) else None
+    # the residual variable: the returned name that is assigned from A_ridge @ matrix_power(X, p) - I
+    ename = None
+    for el in (ret.ast.value.elts if isinstance(ret.ast.value, ast.Tuple) else []):
+        if isinstance(el, ast.Name) and any("matrix_power" in _norm(d) and "A_ridge" in _norm(d) for d in A.assignments_to(fi.node, el.id)):
+            ename = el.id
+    if ename is None:
+        # fall back to any variable compared against a constant in a raising guard after the iteration
+        for t in cfg.nodes:
+            if t.kind == "test" and isinstance(t.ast.test, ast.Compare) and isinstance(t.ast.test.left, ast.Name) and isinstance(t.ast.test.ops[0], ast.Gt) and isinstance(t.ast.test.comparators[0], ast.Constant) and any(isinstance(x, ast.Raise) for x in t.ast.body):
+                ename = t.ast.test.left.id
     # residual guard
-    tests = [t for t in cfg.nodes if t.kind == "test" and "true_error" in _norm(t.ast.test) and ">" in _norm(t.ast.test)]
+    tests = [t for t in cfg.nodes if t.kind == "test" and isinstance(t.ast.test, ast.Compare) and isinstance(t.ast.test.left, ast.Name) and t.ast.test.left.id == ename and isinstance(t.ast.test.ops[0], ast.Gt)]
     ok = len(tests) == 1 and cfg.dominates(tests[0], ret) and any(isinstance(s, ast.Raise) for s in tests[0].ast.body)
-    rep.ob(rule, "residual-guard-dominates-return", ok, fi.loc(tests[0].ast) if tests else fi.loc(), "`if true_error > <guard>: raise` lies on every path to the return", sample=True)
-    te = [n for n in A.walk_no_nested(fi.node) if isinstance(n, ast.Assign) and isinstance(n.targets[0], ast.Name) and n.targets[0].id == "true_error"]
+    rep.ob(rule, "residual-guard-dominates-return", ok, fi.loc(tests[0].ast) if tests else fi.loc(), f"`if {ename} > <guard>: raise` lies on every path to the return", sample=True)
+    te = [n for n in A.walk_no_nested(fi.node) if isinstance(n, ast.Assign) and isinstance(n.targets[0], ast.Name) and n.targets[0].id == ename]
     ok = len(te) == 1
-    detail = f"{len(te)} assignment(s) of true_error"
+    detail = f"{len(te)} assignment(s) of the guarded residual `{ename}`"
     if ok and tests:
         n = cfg.node_of(te[0])
         conds = []
@@ -161,7 +171,7 @@ def higher_order_guards(ctx, rep, rule: str) -> None:
                 conds.append((t, lab))
         names = A.names_in(te[0].value)
         ok = not conds and cfg.dominates(n, tests[0]) and {xname, "A_ridge", "identity"} <= names and "matrix_power" in _norm(te[0].value)
-        detail = f"true_error = `{_norm(te[0].value)[:90]}`: computed unconditionally ({not conds}) from the returned `{xname}`, A_ridge and I ({ {xname, 'A_ridge', 'identity'} <= names }), before the guard ({cfg.dominates(n, tests[0])}) — reusing the coupled-iteration proxy |M - I| would skip the guard exactly when M has drifted from A_ridge X^p"
+        detail = f"{ename} = `{_norm(te[0].value)[:90]}`: computed unconditionally ({not conds}) from the returned `{xname}`, A_ridge and I ({ {xname, 'A_ridge', 'identity'} <= names }), before the guard ({cfg.dominates(n, tests[0])}) — reusing the coupled-iteration proxy |M - I| would skip the guard exactly when M has drifted from A_ridge X^p"
     rep.ob(rule, "residual-recomputed-from-returned-X", ok, fi.loc(te[0]) if te else fi.loc(), detail, sample=True)
     # X is not reassigned between the residual and the guard except the documented powering afterwards
     nan = [t for t in cfg.nodes if t.kind == "test" and "isnan" in _norm(t.ast.test) and "isinf" in _norm(t.ast.test)]
